@@ -603,7 +603,7 @@ pub fn judge(world: &World) -> Judgement {
                 match &f.diff {
                     FileDiff::None | FileDiff::Deleted => (false, false),
                     FileDiff::Added => (true, true),
-                    FileDiff::Insert { line } => (b.start_line < *line && *line < b.end_line, false),
+                    FileDiff::Insert { line, .. } => (b.start_line < *line && *line < b.end_line, false),
                 }
             };
             if all || content_mod || tag_mod {
@@ -929,8 +929,17 @@ pub fn invalid_reason(world: &World) -> Option<String> {
                 return Some("check-lua block without x-tok".into());
             }
         }
-        if let FileDiff::Insert { line } = f.diff {
-            let l = line;
+        if let FileDiff::Insert { line, renamed_from } = &f.diff {
+            let l = *line;
+            if let Some(old) = renamed_from {
+                if old.is_empty()
+                    || old.starts_with('/')
+                    || old.starts_with("b/")
+                    || world.files.iter().any(|g| &g.path == old || g.path.starts_with(&format!("{old}/")) || old.starts_with(&format!("{}/", g.path)))
+                {
+                    return Some(format!("rename source {old:?} collides with the tree"));
+                }
+            }
             if l == 0 || l > r.lines.len() {
                 return Some("insert line out of range".into());
             }
